@@ -3,7 +3,8 @@
 
    Vocabulary.  A request stream as the peer drives it is a list of transport events, one chunk
    per event, classified at the HTTP/3 level (QPACK / field validation are other properties'):
-     EHeaders k      one complete HEADERS frame whose field section is k
+     EHeaders k      one complete HEADERS frame whose field section is k (the first one on a stream is the
+                     message header, one after the body is the trailer section)
      EData t p       a DATA frame header announcing t payload bytes, followed by the first bytes p of them
      EMore bs        further payload bytes of the open DATA frame
      EPartial        a strict prefix of a frame (header) that nothing completes
@@ -27,7 +28,7 @@ Inductive role := Server | Client.
 
 (* transport calls h3 makes on the request's own stream, and the frames it writes there *)
 Inductive call := CReset (c : N) | CStop (c : N) | CFin.
-Inductive witem := WHeaders (tag : N) | WData (bs : bytes).   (* tag: status of a response, 0 for a request *)
+Inductive witem := WHeaders (tag : N) | WData (bs : bytes) | WTrailers.   (* tag: status of a response, 0 for a request *)
 
 (* what the application sees at the end of a request *)
 Inductive errclass := KStreamError | KRemoteTerminate | KHeaderTooBig | KRemoteClosing.
@@ -38,7 +39,8 @@ Inductive outcome :=
 | OConnErr (code : N)                           (* an error whose scope is the connection *)
 | OOther.                                       (* panic / outside the abstraction *)
 
-Record observed := { ob_out : outcome; ob_data : bytes; ob_calls : list call; ob_tx : list witem }.
+(* ob_trl: a trailer section was handed to the application *)
+Record observed := { ob_out : outcome; ob_data : bytes; ob_trl : bool; ob_calls : list call; ob_tx : list witem }.
 
 (* RFC 9114 section 8.1 *)
 Definition RFC_H3_REQUEST_CANCELLED : N := 268.  (* 0x010c *)
@@ -49,22 +51,24 @@ Definition STATUS_HEADER_FIELDS_TOO_LARGE : N := 431.
 (* size (RFC 9114 4.2.2: name + value + 32) of the field section ":status: 431" *)
 Definition SIZE_OF_431_SECTION : N := 42.
 
-(* per-request constants of the scenario: our role, the size of the field section WE send, the body WE send *)
-Record rcfg := { c_role : role; c_hsize : N; c_body : bytes }.
+(* per-request constants of the scenario: our role, the size of the field section WE send, the body WE send,
+   the size of the trailer section WE send (None: no trailers) *)
+Record rcfg := { c_role : role; c_hsize : N; c_body : bytes; c_trl : option N }.
 (* disturbances that are not faults of the stream's own bytes: a STOP_SENDING for this request, the
    limit announced in the peer's SETTINGS (if it arrives at all), a GOAWAY from the peer *)
 Record renv := { e_stop : option N; e_limit : option N; e_goaway : bool }.
 
 Inductive allowance :=
-| AOk (body : bytes) (tx : list witem)
-    (* normal completion: exactly these bytes were delivered, exactly these frames written, stream finished,
-       no reset / stop_sending *)
+| AOk (body : bytes) (tx : list witem) (trl : bool)
+    (* normal completion: exactly these bytes were delivered, trailers handed over iff trl, exactly these frames
+       written, stream finished, no reset / stop_sending *)
 | AErr (k : errclass) (code : option N) (aborts : list call) (upto : bytes) (tx : option (list witem)).
     (* that stream-level error; exactly these reset/stop_sending calls; the delivered bytes are a prefix of
        [upto]; frames written as given when constrained *)
 
 (* ---------- the body of a message: DATA frames cut into chunks, then how it ends *)
-Inductive ending := EndFin | EndReset (c : N) | EndBad.
+(* EndFinT k: a trailer section k, then FIN *)
+Inductive ending := EndFin | EndFinT (k : hkind) | EndReset (c : N) | EndBad.
 
 (* scan_body r acc P: r payload bytes of the open DATA frame are still owed; returns the payload
    bytes in order and how the stream ends.  Anything outside the grammar is EndBad. *)
@@ -78,14 +82,24 @@ Fixpoint scan_body (r : N) (acc : bytes) (p : list ev) : bytes * ending :=
       if (r =? 0) && (len part <=? t) then scan_body (t - len part) (acc ++ part) q else (acc, EndBad)
   | EMore bs :: q =>
       if (0 <? len bs) && (len bs <=? r) then scan_body (r - len bs) (acc ++ bs) q else (acc, EndBad)
+  | EHeaders k :: q =>
+      (* trailers: only at a frame boundary, and nothing but the end of the stream may follow *)
+      if r =? 0 then
+        match q with
+        | EFin :: [] => (acc, EndFinT k)
+        | EReset c :: [] => (acc, EndReset c)
+        | EPartial :: EReset c :: [] => (acc, EndReset c)
+        | _ => (acc, EndBad)
+        end
+      else (acc, EndBad)
   | _ => (acc, EndBad)
   end.
 
 Definition healthy_tx (c : rcfg) : list witem :=
-  match c_role c with
-  | Server => [WHeaders STATUS_OK; WData (c_body c)]
-  | Client => [WHeaders 0; WData (c_body c)]
-  end.
+  (match c_role c with
+   | Server => [WHeaders STATUS_OK; WData (c_body c)]
+   | Client => [WHeaders 0; WData (c_body c)]
+   end) ++ (match c_trl c with Some _ => [WTrailers] | None => [] end).
 
 Definition over (sz : N) (lim : option N) : bool :=
   match lim with Some v => v <? sz | None => false end.
@@ -95,7 +109,18 @@ Definition classify_script (c : rcfg) (s : list ev) : option (list allowance) :=
   match s with
   | EHeaders HOk :: body =>
       match scan_body 0 [] body with
-      | (d, EndFin) => Some [AOk d (healthy_tx c)]
+      | (d, EndFin) => Some [AOk d (healthy_tx c) false]
+      | (d, EndFinT HOk) => Some [AOk d (healthy_tx c) true]
+      | (d, EndFinT HMalformed) =>
+          (* RFC 9114 4.1.2 applies to trailer sections as well: stream error H3_MESSAGE_ERROR *)
+          Some [AErr KStreamError (Some RFC_H3_MESSAGE_ERROR) [CStop RFC_H3_MESSAGE_ERROR] d
+                     (match c_role c with Server => Some [] | Client => None end)]
+      | (d, EndFinT HOversized) =>
+          match c_role c with
+          | Server => Some [AErr KHeaderTooBig None [] d (Some [])]
+          | Client => Some [AErr KHeaderTooBig None [CStop RFC_H3_REQUEST_CANCELLED] d None]
+          end
+      | (_, EndFinT HBadQpack) => None
       | (d, EndReset code) => Some [AErr KRemoteTerminate (Some code) [] d None]
       | (_, EndBad) => None
       end
@@ -137,6 +162,7 @@ Definition classify_env (c : rcfg) (e : renv) (s : list ev) : list allowance :=
    | None => []
    end) ++
   (if over (c_hsize c) (e_limit e)
+      || (match c_trl c with Some z => over z (e_limit e) | None => false end)
       || (match c_role c, s with
           | Server, EHeaders HOversized :: _ => over SIZE_OF_431_SECTION (e_limit e)
           | _, _ => false
@@ -177,6 +203,7 @@ Definition witem_eqb (a b : witem) : bool :=
   match a, b with
   | WHeaders x, WHeaders y => x =? y
   | WData x, WData y => bytes_eqb x y
+  | WTrailers, WTrailers => true
   | _, _ => false
   end.
 Fixpoint list_eqb {A} (eqb : A -> A -> bool) (a b : list A) : bool :=
@@ -201,8 +228,9 @@ Definition optN_eqb (a b : option N) : bool :=
 
 Definition sat1 (o : observed) (a : allowance) : bool :=
   match a, ob_out o with
-  | AOk body tx, OOk =>
+  | AOk body tx trl, OOk =>
       bytes_eqb (ob_data o) body && list_eqb witem_eqb (ob_tx o) tx && list_eqb call_eqb (ob_calls o) [CFin]
+      && Bool.eqb (ob_trl o) trl
   | AErr k code aborts upto tx, OStreamErr k' code' =>
       errclass_eqb k k' && optN_eqb code code'
       && list_eqb call_eqb (filter is_abort (ob_calls o)) aborts
@@ -217,7 +245,7 @@ Definition sat (o : observed) (l : list allowance) : bool := existsb (sat1 o) l.
 (* a request that is in the class and completes normally is owed exactly its bytes *)
 Definition healthy (c : rcfg) (s : list ev) : option bytes :=
   match classify_script c s with
-  | Some [AOk d _] => Some d
+  | Some [AOk d _ _] => Some d
   | _ => None
   end.
 
